@@ -151,8 +151,11 @@ impl Relation for ZkirRelation {
     }
 
     fn read_relation<R: io::Read>(reader: &mut R) -> io::Result<Self> {
-        let program: Program = bincode::decode_from_std_read(reader, bincode::config::standard())
-            .map_err(io::Error::other)?;
+        // The length prefixes of the encoding are untrusted: bound what the decoder may claim,
+        // so that an announced length cannot trigger a huge allocation (or a capacity overflow).
+        let config = bincode::config::standard().with_limit::<{ 1 << 26 }>();
+        let program: Program =
+            bincode::decode_from_std_read(reader, config).map_err(io::Error::other)?;
 
         Self::from_instructions(&program.instructions)
             .map_err(|e| io::Error::other(format!("{e:?}")))
